@@ -169,6 +169,8 @@ type Parent struct {
 	knownHit map[int]int
 	nviol    int
 	start    time.Time
+	slowMs   int64
+	slowCase int
 }
 
 func tierCases(s *Spec, tier string) int {
@@ -236,8 +238,9 @@ func workerMain(s *Spec, a []string) int {
 			continue
 		}
 		w.begin(i)
+		t0 := time.Now()
 		s.Fn(w, i)
-		w.emit(rec{K: "end", I: i})
+		w.emit(rec{K: "end", I: i, N: time.Since(t0).Milliseconds()})
 	}
 	if w.timer != nil {
 		w.timer.Stop()
@@ -414,6 +417,10 @@ func parentMain(s *Spec, tier string) int {
 			case "sample":
 				if len(p.samples) < 6 {
 					p.samples = append(p.samples, r.Data)
+				}
+			case "end":
+				if r.N > p.slowMs {
+					p.slowMs, p.slowCase = r.N, r.I
 				}
 			case "count":
 				p.Counts[r.Key] += r.N
@@ -611,6 +618,7 @@ func (p *Parent) finish() int {
 
 	fmt.Printf("%s %s seed=%d: evaluations=%d distinct_nontrivial=%d violations=%d known=%d inconclusive=%d wall=%.1fs\n",
 		id, p.Tier, p.Seed, p.evals, nt, p.nviol, knownCount, len(p.incon), time.Since(p.start).Seconds())
+	fmt.Printf("  slowest case: #%d (%d ms)\n", p.slowCase, p.slowMs)
 	keys := make([]string, 0, len(p.Counts))
 	for k := range p.Counts {
 		keys = append(keys, k)
